@@ -12,15 +12,15 @@ From Coq Require Import Floats.SpecFloat.
 Section VnWGuards.
   Variable A : arith.
 
-  Theorem vn_bestW_mismatch : forall fuel ws p, length ws <> length p ->
-    vn_bestW A fuel ws p = Err (InputLenMismatch (length p) (length ws)).
-  Proof. intros fuel ws p H. unfold vn_bestW. apply Nat.eqb_neq in H. rewrite H. reflexivity. Qed.
+  Theorem vn_bestW_mismatch : forall guard fuel ws p, length ws <> length p ->
+    vn_bestW A guard fuel ws p = Err (InputLenMismatch (length p) (length ws)).
+  Proof. intros guard fuel ws p H. unfold vn_bestW. apply Nat.eqb_neq in H. rewrite H. reflexivity. Qed.
 
-  Theorem vn_bestW_negative : forall fuel ws p, length ws = length p ->
+  Theorem vn_bestW_negative : forall guard fuel ws p, length ws = length p ->
     Exists (fun w => w_ltb A w (w_zero A) = true) ws ->
-    vn_bestW A fuel ws p = Err NegativeValues.
+    vn_bestW A guard fuel ws p = Err NegativeValues.
   Proof.
-    intros fuel ws p Hlen Hex. unfold vn_bestW. apply Nat.eqb_eq in Hlen. rewrite Hlen. cbn [negb].
+    intros guard fuel ws p Hlen Hex. unfold vn_bestW. apply Nat.eqb_eq in Hlen. rewrite Hlen. cbn [negb].
     replace (existsb (fun w => w_ltb A w (w_zero A)) ws) with true; [reflexivity|].
     symmetry. apply existsb_exists. apply Exists_exists in Hex. exact Hex.
   Qed.
@@ -45,34 +45,35 @@ Definition osc_crit := rev (sort_items_descW F64arith (items_ofW F64arith osc_ws
 
 Lemma vnbest_f64_cycle :
   parts_loadW F64arith osc_ws osc_p 2 = Ok osc_L /\
-  forall n, iter_nat (vb_stepW F64arith osc_crit) 2 (osc_p, osc_L, n) = inl (osc_p, osc_L, (n + 1 + 1)%N).
+  forall n, iter_nat (vb_stepW F64arith false osc_crit) 2 (osc_p, osc_L, n) = inl (osc_p, osc_L, (n + 1 + 1)%N).
 Proof.
   split; [vm_compute; reflexivity|]. intros n. cbv [iter_nat].
-  assert (S1 : forall m, vb_stepW F64arith osc_crit (osc_p, osc_L, m)
+  assert (S1 : forall m, vb_stepW F64arith false osc_crit (osc_p, osc_L, m)
                          = inl ([1; 1; 0; 0; 0]%N, f64s [4607632778762754458; 4607182418800017408]%N, (m + 1)%N)).
   { intros m. vm_compute. reflexivity. }
   rewrite S1.
-  assert (S2 : forall m, vb_stepW F64arith osc_crit ([1; 1; 0; 0; 0]%N, f64s [4607632778762754458; 4607182418800017408]%N, m)
+  assert (S2 : forall m, vb_stepW F64arith false osc_crit ([1; 1; 0; 0; 0]%N, f64s [4607632778762754458; 4607182418800017408]%N, m)
                          = inl (osc_p, osc_L, (m + 1)%N)).
   { intros m. vm_compute. reflexivity. }
   rewrite S2. reflexivity.
 Qed.
 
-(* hence no fuel is enough: the model of VnBest on binary64 never returns on this input *)
-Theorem vnbest_f64_never_returns : forall fuel, vn_bestW F64arith fuel osc_ws osc_p = OutOfFuel.
+(* hence no fuel is enough: the loop WITHOUT the progress test (the code before fix 98041ea) never
+   returns on this input *)
+Theorem vnbest_f64_never_returns : forall fuel, vn_bestW F64arith false fuel osc_ws osc_p = OutOfFuel.
 Proof.
   destruct vnbest_f64_cycle as [HL Hc].
-  assert (G : forall k n, exists n', iter_nat (vb_stepW F64arith osc_crit) (2 * k) (osc_p, osc_L, n) = inl (osc_p, osc_L, n')).
+  assert (G : forall k n, exists n', iter_nat (vb_stepW F64arith false osc_crit) (2 * k) (osc_p, osc_L, n) = inl (osc_p, osc_L, n')).
   { induction k as [|k IH]; intros n; [exists n; reflexivity|].
     replace (2 * S k)%nat with (2 + 2 * k)%nat by lia.
-    rewrite (iter_nat_add (vb_stepW F64arith osc_crit) 2 (2 * k)), Hc. apply IH. }
-  assert (G1 : forall fuel n, exists s, iter_nat (vb_stepW F64arith osc_crit) fuel (osc_p, osc_L, n) = inl s).
+    rewrite (iter_nat_add (vb_stepW F64arith false osc_crit) 2 (2 * k)), Hc. apply IH. }
+  assert (G1 : forall fuel n, exists s, iter_nat (vb_stepW F64arith false osc_crit) fuel (osc_p, osc_L, n) = inl s).
   { intros fuel n. destruct (Nat.Even_or_Odd fuel) as [[k ->]|[k ->]].
     - destruct (G k n) as [n' E]. eauto.
     - replace (2 * k + 1)%nat with (2 * k + 1)%nat by lia.
-      rewrite (iter_nat_add (vb_stepW F64arith osc_crit) (2 * k) 1).
+      rewrite (iter_nat_add (vb_stepW F64arith false osc_crit) (2 * k) 1).
       destruct (G k n) as [n' E]. rewrite E. cbn [iter_nat].
-      assert (S1 : vb_stepW F64arith osc_crit (osc_p, osc_L, n')
+      assert (S1 : vb_stepW F64arith false osc_crit (osc_p, osc_L, n')
                    = inl ([1; 1; 0; 0; 0]%N, f64s [4607632778762754458; 4607182418800017408]%N, (n' + 1)%N))
         by (vm_compute; reflexivity).
       rewrite S1. eauto. }
@@ -85,6 +86,44 @@ Proof.
   destruct (G1 fuel 0%N) as [s E].
   match goal with |- match ?t with _ => _ end = _ => replace t with (@inl (vb_stateW F64arith) (res (list N * N)) s) by (symmetry; exact E) end.
   reflexivity.
+Qed.
+
+(* with the progress test the same input returns at once: the move 1.0|1.1 -> 1.1|1.0 does not bring
+   the two parts closer (0.10000000000000009 is not below 0.10000000000000009) *)
+Lemma vnbest_f64_fixed_returns : vn_bestW F64arith true 10 osc_ws osc_p = Ok (osc_p, 0%N).
+Proof. vm_compute. reflexivity. Qed.
+
+(* on the integers the progress test never fires: the two loops are the same function *)
+Lemma vb_guardW_Z_never lo lu w : w_leb Zarith (w_sub Zarith lo lu) w = false ->
+  vb_guardW Zarith lo lu w (w_sub Zarith lo lu) = false.
+Proof.
+  unfold w_leb, vb_guardW. cbn [Zarith W w_ltb w_eqb w_sub w_add]. intros H.
+  apply orb_false_iff in H as [H1 H2]. apply Z.ltb_ge in H1. apply Z.eqb_neq in H2.
+  destruct (Z.ltb_spec (lo - w) (lu + w)); cbn [andb]; auto.
+  destruct (Z.ltb_spec (lu + w - (lo - w)) (lo - lu)); cbn [negb]; auto. lia.
+Qed.
+
+Lemma vb_stepW_Z_guard crit st : vb_stepW Zarith true crit st = vb_stepW Zarith false crit st.
+Proof.
+  unfold vb_stepW. destruct st as [[p L] n].
+  destruct (minmax_posW Zarith L) as [[under over]|]; auto.
+  destruct (nth_opt L over) as [lo|]; auto. destruct (nth_opt L under) as [lu|]; auto.
+  destruct (nearestW _ _ _ _ _ _ _ _) as [[c|]| | |]; auto.
+  destruct (nth_opt crit c) as [[w id]|]; auto.
+  destruct (w_leb Zarith (w_sub Zarith lo lu) w || w_is_zero Zarith w) eqn:E; auto.
+  apply orb_false_iff in E as [E _]. cbn [andb]. rewrite (vb_guardW_Z_never _ _ _ E). reflexivity.
+Qed.
+
+Theorem vn_bestW_Z_guard fuel ws p : vn_bestW Zarith true fuel ws p = vn_bestW Zarith false fuel ws p.
+Proof.
+  unfold vn_bestW.
+  destruct (negb _); auto. destruct (existsb _ ws); auto. destruct (_ || _); auto.
+  destruct (parts_loadW Zarith ws p (part_count p)) as [L| | |]; cbn [bind]; auto.
+  assert (G : forall n s, iter_nat (vb_stepW Zarith true (rev (sort_items_descW Zarith (items_ofW Zarith ws)))) n s
+                        = iter_nat (vb_stepW Zarith false (rev (sort_items_descW Zarith (items_ofW Zarith ws)))) n s).
+  { induction n as [|n IH]; intros s; cbn [iter_nat]; auto. rewrite vb_stepW_Z_guard.
+    destruct (vb_stepW Zarith false _ s); auto. }
+  now rewrite G.
 Qed.
 
 (* VnFirst: 0.1 0.1 0.6000000000000001 0.7000000000000001, parts 0 1 1 0 -> 1 1 1 0: the exact gap grows
